@@ -369,7 +369,19 @@ func loadChunk(l *Lexer, recordLen uint64) error {
 		return fmt.Errorf("failed to read compression length: %w", err)
 	}
 
-	// read compression and records length into buffer
+	// read compression and records length into buffer. The compression length
+	// is untrusted: it must fit in the record, and the scratch buffer is grown
+	// (within the usual allocation ceiling) when it does not hold it.
+	if need := uint64(compressionLen) + 8; need > uint64(len(l.buf)) {
+		if need+8+8+8+4+4 > recordLen {
+			return fmt.Errorf("chunk compression length %d exceeds record length %d", compressionLen, recordLen)
+		}
+		buf, err := makeSafe(need)
+		if err != nil {
+			return fmt.Errorf("failed to allocate buffer for chunk compression: %w", err)
+		}
+		l.buf = buf
+	}
 	thisReadLength, err := io.ReadFull(l.reader, l.buf[:compressionLen+8])
 	readLength += thisReadLength
 	if errors.Is(err, io.ErrUnexpectedEOF) || errors.Is(err, io.EOF) {
